@@ -49,6 +49,9 @@ type gatherCfg struct {
 	TCPMux       string   `json:"tcp_mux,omitempty"` // listen address of a TCPMuxDefault
 	UDPMuxSrflx  string   `json:"udp_mux_srflx,omitempty"`
 	Rewrite      []AddressRewriteRule `json:"rewrite,omitempty"`
+	// RewriteRaw is compiled and installed directly, as the repository's own tests do: the public option refuses
+	// a rule without externals, which the rule documentation (and C19) describe
+	RewriteRaw []AddressRewriteRule `json:"rewrite_raw,omitempty"`
 	Depth        int      `json:"depth,omitempty"`
 	CloseErr     bool     `json:"close_err,omitempty"` // sockets and relayed connections report an error from Close (after closing)
 	Start        bool     `json:"start,omitempty"` // StartDial before the first event (needed for the Failed state)
@@ -445,6 +448,13 @@ func newGatherWorld(raw json.RawMessage) *gatherWorld {
 		panic(fmt.Sprintf("agent construction failed: %v (config %s)", err, raw))
 	}
 	gw.a = a
+	if len(cfg.RewriteRaw) > 0 {
+		m, err := newAddressRewriteMapper(cfg.RewriteRaw)
+		if err != nil {
+			panic(fmt.Sprintf("rewrite rules do not compile: %v", err))
+		}
+		a.addressRewriteMapper = m
+	}
 	gw.noteUfrag()
 	a.turnClientFactory = func(c *turn.ClientConfig) (turnClient, error) {
 		gw.fn.mu.Lock()
